@@ -39,10 +39,10 @@ def part_sorters(ctx, part):
     for _ in range(ctx.n(300, 3000)):
         names = []
         for _ in range(r.randint(0, 6)):
-            base = r.choice(["a", "b", "ab", "k", "zz", "var1", "Z", "a_b", "aa", "*r", "**o", "x"])
+            base = r.choice(["a", "b", "ab", "k", "k2", "k1", "k10", "a1", "zz", "var1", "Z", "a_b", "aa", "*r", "**o", "x"])
             names.append(base + r.choice(["", ":", ":"]))
         names = list(dict.fromkeys(names))
-        keys = r.sample(["a:", "b:", "ab:", "k:", "zz:", "Z:", "a_b:", "aa:", "a", "", "é:"], r.randint(0, 5))
+        keys = r.sample(["a:", "b:", "ab:", "k:", "k2:", "k1:", "k10:", "zz:", "Z:", "a_b:", "aa:", "a1:", "a", "", "é:"], r.randint(0, 6))
         ts = [G.KEYVALUE(k, G.gen_scalar(r, True)) for k in keys if k] + [G.gen_scalar(r, True) for _ in range(r.randint(0, 3))]
         r.shuffle(ts)
         cases.append((names, ts))
@@ -78,7 +78,7 @@ def kw_signature(r):
         dargs.append("*var%d" % n)
         params["var%d" % n] = A.builtin(G.UNTYPED(), ast=True)
         meta.append(("rest", "var%d" % n, "Untyped"))
-    for key in r.sample(["a", "b", "c", "k", "zz", "ab"], r.choice([2, 2, 3, 4, 5])):
+    for key in r.sample(["a", "b", "c", "k", "k2", "k10", "a1", "zz", "ab"], r.choice([2, 2, 3, 4, 5])):
         tn, f = r.choice(A.PARAM_TYPES)
         hd = r.random() < 0.4
         dargs.append(key + ":")
@@ -140,7 +140,7 @@ def gen_e2e_program(r):
     (line index, prefix, positional texts, [(key, value text)], suffix)."""
     lines = ["c = true", 'x_u = c ? 1 : "s"']
     sites = []
-    keys_pool = ["alpha", "beta", "gamma", "delta", "eps"]
+    keys_pool = ["alpha", "beta", "gamma", "delta", "eps", "k", "k2", "k10", "alpha1"]
     # top-level method with keywords (+ optional **opts)
     ks = r.sample(keys_pool, r.randint(2, 4))
     defaults = {k: r.random() < 0.4 for k in ks}
